@@ -85,7 +85,8 @@ theorem good_crcShared {s : S} (h : Inv s) (k : Nat) (data : Bits) (little : Boo
     Good s (.crcShared k data little) := by
   show (stepCrcShared s k data little).2.1 = pureOut (.crcShared k data little) ∧ Inv (stepCrcShared s k data little).1
     ∧ (stepCrcShared s k data little).2.2 = .crcShared k data little
-  unfold stepCrcShared pureOut
+  show _ = pureCrcShared k data little ∧ _
+  unfold stepCrcShared pureCrcShared pureCrc
   cases hk : sharedCfgs[k]? with
   | none => exact ⟨rfl, h, rfl⟩
   | some ct =>
@@ -98,33 +99,35 @@ theorem good_crcShared {s : S} (h : Inv s) (k : Nat) (data : Bits) (little : Boo
       have ht := find_table h.cache he
       simp only [he, Option.map_some, Option.isNone_some, Bool.and_false, if_true,
         Bool.false_eq_true, if_false, ht]
-      exact ⟨rfl, h.scratch _ _ _ _, rfl⟩
+      exact ⟨trivial, h.scratch _ _ _ _, trivial⟩
 
 theorem good_crcNew {s : S} (h : Inv s) (cfg : CrcCfg) (table : Bool) (data : Bits) (little : Bool) :
     Good s (.crcNew cfg table data little) := by
   show (stepCrcNew s cfg table data little).2.1 = pureOut (.crcNew cfg table data little)
     ∧ Inv (stepCrcNew s cfg table data little).1 ∧ (stepCrcNew s cfg table data little).2.2 = .crcNew cfg table data little
-  unfold stepCrcNew pureOut
+  show _ = pureCrc cfg table data little ∧ _
+  unfold stepCrcNew pureCrc
   cases table with
   | false => exact ⟨rfl, h, rfl⟩
   | true =>
     obtain ⟨h1, h2, h3⟩ := cachedTable_spec h.cache cfg.width cfg.poly
     simp only [if_true, h1]
-    exact ⟨rfl, h.withCache _ h2 h3, rfl⟩
+    exact ⟨trivial, h.withCache _ h2 h3, trivial⟩
 
 theorem good_crcKept {s : S} (h : Inv s) (cfg : CrcCfg) (table : Bool) (data : Bits) (little : Bool) :
     Good s (.crcKept cfg table data little) := by
   show (stepCrcKept s cfg table data little).2.1 = pureOut (.crcKept cfg table data little)
     ∧ Inv (stepCrcKept s cfg table data little).1 ∧ (stepCrcKept s cfg table data little).2.2 = .crcKept cfg table data little
-  unfold stepCrcKept pureOut
+  show _ = pureCrc cfg table data little ∧ _
+  unfold stepCrcKept pureCrc
   obtain ⟨h1, h2, h3⟩ := cachedTable_spec h.cache cfg.width cfg.poly
   cases table with
   | false =>
     simp only [Bool.false_eq_true, if_false, Bool.false_and]
-    exact ⟨rfl, (h.withCache _ h.cache (fun _ h => h)).scratch _ _ _ _, rfl⟩
+    exact ⟨trivial, (h.withCache _ h.cache (fun _ h => h)).scratch _ _ _ _, trivial⟩
   | true =>
     simp only [if_true, h1, Bool.true_and]
-    refine ⟨rfl, ?_, rfl⟩
+    refine ⟨trivial, ?_, trivial⟩
     cases hkn : (s.kept.any fun e => e.1 == cfg && e.2.1 == true) with
     | true => exact (h.withCache _ h.cache (fun _ h => h)).scratch _ _ _ _
     | false => exact (h.withCache _ h2 h3).scratch _ _ _ _
@@ -132,30 +135,26 @@ theorem good_crcKept {s : S} (h : Inv s) (cfg : CrcCfg) (table : Bool) (data : B
 theorem good_ham {s : S} (h : Inv s) (i : Nat) (x : Bits) :
     Good s (.hamGenerate i x) ∧ Good s (.hamCheck i x) := by
   refine ⟨?_, ?_⟩
-  · show (codeOp s.codes i (·.k) x (fun C => Out.bits (C.gen x))) = pureOut (.hamGenerate i x) ∧ Inv s ∧ _ = _
+  · show (codeOp s.codes i (·.k) x (fun C => Out.bits (C.gen x))) = codeOp theCodes i (·.k) x (fun C => Out.bits (C.gen x)) ∧ Inv s ∧ _ = _
     rw [h.codes]; exact ⟨rfl, h, rfl⟩
-  · show (codeOp s.codes i (·.n) x (fun C => Out.flag (C.check x))) = pureOut (.hamCheck i x) ∧ Inv s ∧ _ = _
+  · show (codeOp s.codes i (·.n) x (fun C => Out.flag (C.check x))) = codeOp theCodes i (·.n) x (fun C => Out.flag (C.check x)) ∧ Inv s ∧ _ = _
     rw [h.codes]; exact ⟨rfl, h, rfl⟩
 
 theorem good_hamCac {s : S} (h : Inv s) (i : Nat) (w : Bits) : Good s (.hamCac i w) := by
-  show (stepHamCac s i w).2.1 = pureOut (.hamCac i w) ∧ Inv (stepHamCac s i w).1 ∧ (stepHamCac s i w).2.2 = argsAfter (.hamCac i w)
-  unfold stepHamCac pureOut argsAfter
+  show (stepHamCac s i w).2.1 = pureHamCac i w ∧ Inv (stepHamCac s i w).1 ∧ (stepHamCac s i w).2.2 = .hamCac i (cacBuffer i w)
+  unfold stepHamCac cacBuffer pureHamCac
   rw [h.codes]
   by_cases hi : i ≥ 5
-  · simp only [hi, if_true]; exact ⟨rfl, h, rfl⟩
-  · simp only [hi, if_false]
-    split
-    · next ok b heq => simp only [heq]; exact ⟨rfl, h, rfl⟩
-    · next o hne =>
-      refine ⟨rfl, h, ?_⟩
-      split
-      · next ok b heq => exact absurd heq (hne ok b)
-      · rfl
+  · rw [if_pos hi, if_pos hi]; exact ⟨rfl, h, rfl⟩
+  · rw [if_neg hi, if_neg hi]
+    generalize codeOp theCodes i (·.n) w (fun C => Out.flagBits (C.checkAndCorrect w).1 (C.checkAndCorrect w).2) = o
+    cases o <;> exact ⟨rfl, h, rfl⟩
 
 theorem good_getToken {s : S} (h : Inv s) (req : Bool) (name : Key) (attrs : List (Key × Option Nat)) :
     Good s (.getToken req name attrs) := by
-  show Out.tok (getTokenAux s.attrDefs name attrs (if req then s.tokReq else s.tokAns) 0).1 = pureOut (.getToken req name attrs) ∧ Inv s ∧ _ = _
-  unfold pureOut initTokens
+  show Out.tok (getTokenAux s.attrDefs name attrs (if req then s.tokReq else s.tokAns) 0).1
+    = Out.tok (getTokenAux init.attrDefs name attrs (initTokens req) 0).1 ∧ Inv s ∧ _ = _
+  unfold initTokens
   rw [h.attrDefs, h.tokReq, h.tokAns]
   exact ⟨rfl, h, rfl⟩
 
@@ -202,8 +201,8 @@ theorem code_ext {a b : Code} (hn : a.n = b.n) (hk : a.k = b.k) (hd : a.d = b.d)
   cases a; cases b; simp_all
 
 theorem inv_of_invB {s : S} (h : invB s = true) (hd : s.codes.map (·.d) = theCodes.map (·.d)) : Inv s := by
-  simp only [invB, Bool.and_eq_true, List.all_eq_true, beq_iff_eq, decide_eq_true_eq] at h
-  obtain ⟨⟨⟨⟨⟨⟨⟨⟨⟨⟨⟨⟨hc, hs⟩, hlen⟩, hcodes⟩, hb⟩, hcs⟩, hdh⟩, hso⟩, hr⟩, htr⟩, hta⟩, had⟩ := h
+  simp only [invB, Bool.and_eq_true, List.all_eq_true, beq_iff_eq] at h
+  obtain ⟨⟨⟨⟨⟨⟨⟨⟨⟨⟨⟨hc, hs⟩, hlen⟩, hcodes⟩, hb⟩, hcs⟩, hdh⟩, hso⟩, hr⟩, htr⟩, hta⟩, had⟩ := h
   refine ⟨fun e he => hc e he, ?_, ?_, hb, hcs, hdh, hso, hr, htr, hta, had⟩
   · intro c hc' ht
     have := hs c hc'
